@@ -35,7 +35,7 @@ ASSUMPTIONS = [
 REQUIRE = {"repeat_calls_same_array_objects": 50, "kernel_calls_audited": 100, "cells_outside_region_checked": 1000, "cells_in_region_compared": 5000, "asan_calls_clean": 10}
 SHARD_TIMEOUT = {"quick": 900, "thorough": 2400}
 
-LAYOUTS = ("contig", "embedded", "strided")
+LAYOUTS = ("contig", "embedded", "strided", "mixed")
 
 
 def _preload():
@@ -127,7 +127,7 @@ def run_shard(sh, rec):
                     except Exception as e:
                         rec.violation(f"{vname}-generator-raises", f"{type(e).__name__}: {e}", {"variant": vname})
                         continue
-                layouts = LAYOUTS if (mode == "audit" and nt == 2 and not again) else ("contig",)
+                layouts = LAYOUTS if (mode == "audit" and nt == 2 and not again) else (("contig", "mixed") if mode == "asan" else ("contig",))
                 for sk, shape in _shapes(v, rng, tier, mode):
                     for layout in (layouts if sk in ("minimal", "random") else ("contig",)):
                         A = audit.Arrays(rng, real_t, layout)
